@@ -479,6 +479,10 @@ def native_replay(h, overlay: Path, target: Path, logdir: Path, test_src: str, p
     if not ran:
         return None, "playback did not run (see %s)" % lf
     failed = int(ran.group(3)) > 0
+    # a panic INSIDE the playback driver ("Not enough det vals found": the recorded values do not
+    # drive the native run down the reported path) is not a reproduction of the counterexample
+    if failed and re.search(r"panicked at [^\n]*concrete_playback\.rs", text):
+        return False, "playback driver ran out of recorded values: the native run leaves the reported path (%s)" % lf
     return failed, str(lf)
 
 
